@@ -7,7 +7,6 @@ import (
 	"context"
 	"errors"
 	"fmt"
-	"path"
 	"slices"
 	"strings"
 	"time"
@@ -694,7 +693,10 @@ func (ps *Store) sanitizeName(name string) string {
 }
 
 func (ps *Store) cacheKey(ns *namespace.Namespace, name string) string {
-	return path.Join(ns.UUID, name)
+	// Plain concatenation, not path.Join: Join cleans the result, so a policy
+	// name such as "../<uuid of another namespace>/admin" would select the
+	// cache slot of that other namespace's policy.
+	return ns.UUID + "/" + name
 }
 
 // LoadDefaultPolicies loads default policies for the namespace in the provided context
